@@ -74,6 +74,9 @@ pub enum Op {
     JoinGive(u8),
     /// ... which takes it into its own table (program order and sleeps make sure it is there)
     JoinTake,
+    /// ping the actor (so that it has started), then replace this client's weak sender and weak
+    /// caller (slot 0) by the ones the actor's own context made (`Action::ShareCtxHandles`)
+    AdoptCtx,
     /// OwningAddr::join().await
     Join(H),
     /// create the join future now, await it with JoinAwait(k)
@@ -175,6 +178,26 @@ async fn exec_op(h: &mut Handles, op: Op) -> Res {
             }
             None => EMPTY,
         },
+        Op::AdoptCtx => {
+            let Some(a) = h.a(0) else { return EMPTY };
+            if a.ping().await.is_err() {
+                return EMPTY;
+            }
+            match world::CTX_SHARE.with(|c| c.borrow().clone()) {
+                Some((ws, wc)) => {
+                    if h.wsnd.is_empty() {
+                        h.wsnd.push(None);
+                    }
+                    if h.wcal.is_empty() {
+                        h.wcal.push(None);
+                    }
+                    h.wsnd[0] = Some(ws);
+                    h.wcal[0] = Some(wc);
+                    Res::Ok
+                }
+                None => EMPTY,
+            }
+        }
         Op::JoinTake => match JOIN_POST.with(|p| p.borrow_mut().pop()) {
             Some(f) => {
                 h.joins.push(Some(f));
@@ -474,7 +497,7 @@ async fn exec_op(h: &mut Handles, op: Op) -> Res {
                 None => EMPTY,
             }
         }
-        Op::ToSender(t) => match h.addr_of(t).map(|a| a.sender::<Note>()) {
+        Op::ToSender(t) => match h.addr_of(t).map(crate::scenes::to_sender) {
             Some(s) => {
                 h.snd.push(Some(s));
                 Res::Ok
@@ -488,14 +511,14 @@ async fn exec_op(h: &mut Handles, op: Op) -> Res {
             }
             None => EMPTY,
         },
-        Op::ToWeakSender(t) => match h.addr_of(t).map(|a| a.weak_sender::<Note>()) {
+        Op::ToWeakSender(t) => match h.addr_of(t).map(crate::scenes::to_weak_sender) {
             Some(s) => {
                 h.wsnd.push(Some(s));
                 Res::Ok
             }
             None => EMPTY,
         },
-        Op::ToWeakCaller(t) => match h.addr_of(t).map(|a| a.weak_caller::<Ask>()) {
+        Op::ToWeakCaller(t) => match h.addr_of(t).map(crate::scenes::to_weak_caller) {
             Some(s) => {
                 h.wcal.push(Some(s));
                 Res::Ok
